@@ -1898,8 +1898,9 @@ def _userlist_method(interp, obj: Obj, name: str, args: list, kwargs: dict) -> A
         return len(data.items)
     if name == "__iter__":
         return interp.get_iter(data)
-    interp.emit("flow", obj=obj, op=name, n=len(data.items))
+    n_before = len(data.items)
     r = _list_method(interp, data, name, args, kwargs)
+    interp.emit("flow", obj=obj, op=name, n=n_before, added=max(0, len(data.items) - n_before))
     if name == "copy":
         c = Obj(obj.cls, dict(obj.attrs))
         c.attrs["data"] = r
